@@ -68,15 +68,25 @@ def _solve(job):
             s.from_string(smt_qf)
             if s.check() == z3.unsat:
                 return name, "unsat", "z3-5.1(qf-hyps)", time.time() - t0, "", None
-        s = z3.Solver()
-        s.set(timeout=t_full)
-        s.from_string(smt_full)
-        r = s.check()
-        if r == z3.unsat:
-            return name, "unsat", "z3-5.1", time.time() - t0, "", None
-        if r == z3.sat:
-            md = _model_dict(s.model()) if want_model else None
-            return name, "sat", "z3-5.1", time.time() - t0, "", md
+        # portfolio: the same query under several seeds / budgets (slow queries are the unstable ones)
+        r = None
+        slices = [(0, min(t_full, 10000)), (1, min(t_full, 10000)), (2, t_full)]
+        for seed, budget in slices:
+            s = z3.Solver()
+            s.set(timeout=budget)
+            if seed:
+                s.set("random_seed", seed)
+                s.set("smt.random_seed", seed) if False else None
+                z3.set_param("smt.random_seed", seed)
+            else:
+                z3.set_param("smt.random_seed", 0)
+            s.from_string(smt_full)
+            r = s.check()
+            if r == z3.unsat:
+                return name, "unsat", "z3-5.1" + (f"(seed {seed})" if seed else ""), time.time() - t0, "", None
+            if r == z3.sat:
+                md = _model_dict(s.model()) if want_model else None
+                return name, "sat", "z3-5.1", time.time() - t0, "", md
         reason = s.reason_unknown()
         if use_cli:
             for solver, cmd in (("cvc5-1.0.3", ["/usr/bin/cvc5", "--lang=smt2", f"--tlimit={t_full}"]),
